@@ -91,6 +91,29 @@ CONTRACTS['distance_wei'] = _dijkstra_contract(MOD, 'distance_wei', 'distance_we
     ('distance-is-the-minimum-path-length', _N2 % ("implies(" + RCH('v', 'w') + ", result(0)[v, w] == wd(G, v, w))")),
     ('infinite-exactly-when-unreachable', _N2 % ("implies(Not(" + RCH('v', 'w') + "), result(0)[v, w] == INF)")),
     ('argument-untouched', "unchanged('G')")])
+# ---- distance_wei: the edge-count matrix B (C03: "the edge-count outputs give the number of edges of some minimum-length path") -------------
+# Same algorithm, nothing abstracted; in addition to the distance invariant: every finite entry D[u,w] is the total length of a walk from u to w with
+# exactly B[u,w] connections (wwalkr).  With D = wd at exit this is a minimum-length path with B connections.
+_BW = ('EDGES-finite-entries-are-walks-with-B-connections', _N1 % "implies(D[u, w] < INF, wwalkr(G, u, w, B[u, w], D[u, w]))")
+_BROWS = ('EDGES-rows-done', "forall(lambda a, b: implies(And(inr(a, n0), inr(b, n0), a < %s, D[a, b] < INF), wwalkr(G, a, b, B[a, b], D[a, b])))")
+_BTODO = ('EDGES-rows-todo', "forall(lambda a, b: implies(And(inr(a, n0), inr(b, n0), a %s), B[a, b] == 0))")
+
+
+def _dijkstra_edges_contract():
+    c = _dijkstra_contract(MOD, 'distance_wei', 'distance_wei:edges', False, [
+        ('edge-count-is-the-number-of-connections-of-a-minimum-length-walk', _N2 % ("implies(" + RCH('v', 'w') + ", And(wwalkr(G, v, w, result(1)[v, w], wd(G, v, w)), result(0)[v, w] == wd(G, v, w)))")),
+        ('argument-untouched', "unchanged('G')")])
+    c.loops['for u in range(n)']['inv'] = c.loops['for u in range(n)']['inv'] + [(_BROWS[0], _BROWS[1] % '_it'), (_BTODO[0], _BTODO[1] % '>= _it')]
+    for k in ('while True', 'for v in V'):
+        c.loops[k] = dict(c.loops[k])
+        c.loops[k]['inv'] = c.loops[k]['inv'] + [_BW, (_BROWS[0], _BROWS[1] % 'u'), (_BTODO[0], _BTODO[1] % '> u')]
+    c.ghost_after = dict(c.ghost_after)
+    c.ghost_after['n = len(G)'] = c.ghost_after['n = len(G)'].replace("assume(", "assume(lemma_wwalk(G, n0), ", 1)
+    return c
+
+
+CONTRACTS['distance_wei:edges'] = _dijkstra_edges_contract()
+
 # the same algorithm nested in efficiency_wei, followed by the entrywise inverse (1/INF = 0, diagonal 0)
 CONTRACTS['efficiency_wei.distance_inv_wei'] = _dijkstra_contract('bct.algorithms.efficiency', 'efficiency_wei.distance_inv_wei', 'efficiency_wei.distance_inv_wei', False, [
     ('inverse-of-the-minimum-path-length', _N2 % ("implies(And(v != w, " + RCH('v', 'w') + "), result()[v, w] == 1 / wd(G, v, w))")),
